@@ -8,5 +8,9 @@ for _p in sorted(glob.glob(os.path.join(os.path.dirname(os.path.abspath(__file__
     _n = os.path.basename(_p)[:-3]
     _s = importlib.util.spec_from_file_location("checks.props." + _n, _p)
     _m = importlib.util.module_from_spec(_s)
-    _s.loader.exec_module(_m)
-    PROPS[_n] = _m.CFG
+    try:
+        _s.loader.exec_module(_m)
+        PROPS[_n] = _m.CFG
+    except Exception as _e:  # one broken props file must not take the other properties' checks down
+        import sys as _sys
+        print(f"[registry] WARNING: {_p} does not load: {_e}", file=_sys.stderr)
